@@ -125,8 +125,11 @@ def check(case, ctx):
 
 
 def units(tier):
+    from . import c07
     nmax = 10 if tier == "quick" else 18
-    us = []
+    us = [Unit("exhaustive-small-graphs-all-starts", check, count=lambda t: len(c07._exh_list(t)), cases=c07._exh_cases, shards=(16, 64),
+               space="every labelled graph n<=4 (thorough: n<=5) and digraph n=3 (thorough: + every 5th n=4) with >= 1 edge x every set "
+                     "partition as start x seeds {0,1} (thorough {0..3}) for finetune_und / finetune_und_sign / finetune_dir / community_louvain, gamma=1")]
     for name in mc.ROUTINES:
         ex = (1500, 8000) if name == "community_louvain" else (700, 5000)
         us.append(Unit(name, check, strategy=(lambda nm=name: mc.cases(nm, nmax)), examples=ex, shards=(2, 8)))
